@@ -47,6 +47,29 @@ type vopCase struct {
 	Units []vopUnit `json:"units"`
 	Prog  []vopStmt `json:"prog"`
 	Calls [][]int   `json:"calls"`
+	// interrupted run + resuming call: the graph is compiled with a byte-only checkpoint store and an interrupt mark before / after
+	// leaf Intr (possibly inside a nested graph); calls[0] runs up to the mark, calls[1] resumes with the same checkpoint id
+	Intr      string `json:"intr"`
+	IntrAfter bool   `json:"intrafter"`
+}
+
+type vopStore struct {
+	mu sync.Mutex
+	m  map[string][]byte
+}
+
+func (s *vopStore) Get(_ context.Context, id string) ([]byte, bool, error) {
+	s.mu.Lock()
+	defer s.mu.Unlock()
+	v, ok := s.m[id]
+	return append([]byte{}, v...), ok, nil
+}
+
+func (s *vopStore) Set(_ context.Context, id string, v []byte) error {
+	s.mu.Lock()
+	defer s.mu.Unlock()
+	s.m[id] = append([]byte{}, v...)
+	return nil
 }
 
 type vopT1 struct{ ID string }
@@ -84,6 +107,7 @@ type vopRun struct {
 	ncalls  int
 	mu      sync.Mutex
 	inside  int
+	cur     string                 // interrupted runs: the calls are made one after the other; the call that is being made
 	par     map[string]*vopBarrier // tree "par": per call, the parallel node bodies overlap (all started before any returns)
 }
 
@@ -130,8 +154,35 @@ func vopCallNo(tag string) int {
 	return n
 }
 
+// the call an execution belongs to: normally the tag travelling in the value; in an interrupted run the resumed nodes work on the
+// values of the checkpoint (the first call's), so the (sequential) call in progress is taken instead
+func (r *vopRun) callOf(tag string) string {
+	if r.c.Intr == "" {
+		return tag
+	}
+	r.mu.Lock()
+	defer r.mu.Unlock()
+	return r.cur
+}
+
+// compile options a graph unit needs because the interrupt mark sits on one of its own children
+func (r *vopRun) intrOpts(gid string) []GraphCompileOption {
+	for i := range r.c.Units {
+		u := &r.c.Units[i]
+		if u.U == r.c.Intr && u.Parent == gid {
+			key := u.Path[len(u.Path)-1]
+			if r.c.IntrAfter {
+				return []GraphCompileOption{WithInterruptAfterNodes([]string{key})}
+			}
+			return []GraphCompileOption{WithInterruptBeforeNodes([]string{key})}
+		}
+	}
+	return nil
+}
+
 func (r *vopRun) record(u *vopUnit, tag string, got []string, first bool) {
-	if first {
+	tag = r.callOf(tag)
+	if first && r.c.Intr == "" {
 		r.rendezvous()
 	}
 	if got == nil {
@@ -242,7 +293,7 @@ func (r *vopRun) build(gid string, top bool, gk string) (AnyGraph, error) {
 				if err != nil {
 					return nil, err
 				}
-				ch.AppendGraph(sub, WithNodeKey(key), WithNodeName("N_"+u.U))
+				ch.AppendGraph(sub, WithNodeKey(key), WithNodeName("N_"+u.U), WithGraphCompileOptions(r.intrOpts(u.U)...))
 			} else {
 				ch.AppendLambda(r.leaf(u, first), WithNodeKey(key), WithNodeName("N_"+u.U))
 			}
@@ -259,7 +310,7 @@ func (r *vopRun) build(gid string, top bool, gk string) (AnyGraph, error) {
 				if err != nil {
 					return nil, err
 				}
-				wf.AddGraphNode(key, sub, WithNodeName("N_"+u.U)).AddInput(prev)
+				wf.AddGraphNode(key, sub, WithNodeName("N_"+u.U), WithGraphCompileOptions(r.intrOpts(u.U)...)).AddInput(prev)
 			} else {
 				wf.AddLambdaNode(key, r.leaf(u, first), WithNodeName("N_"+u.U)).AddInput(prev)
 			}
@@ -278,7 +329,7 @@ func (r *vopRun) build(gid string, top bool, gk string) (AnyGraph, error) {
 			if err != nil {
 				return nil, err
 			}
-			if err := g.AddGraphNode(key, sub, WithNodeName("N_"+u.U)); err != nil {
+			if err := g.AddGraphNode(key, sub, WithNodeName("N_"+u.U), WithGraphCompileOptions(r.intrOpts(u.U)...)); err != nil {
 				return nil, err
 			}
 		} else {
@@ -330,6 +381,7 @@ func (r *vopRun) handler(id string) callbacks.Handler {
 	// end / error events are attributed through the context the start callback returned
 	type tagKey struct{}
 	note := func(tag string, info *callbacks.RunInfo) {
+		tag = r.callOf(tag)
 		name := "<nil>"
 		if info != nil {
 			name = info.Name
@@ -365,7 +417,7 @@ func (r *vopRun) handler(id string) callbacks.Handler {
 
 func (r *vopRun) runCase() {
 	c := r.c
-	r.rec.log("case", map[string]any{"id": c.ID, "tree": c.Tree, "units": c.Units, "prog": c.Prog, "calls": c.Calls})
+	r.rec.log("case", map[string]any{"id": c.ID, "tree": c.Tree, "units": c.Units, "prog": c.Prog, "calls": c.Calls, "intr": c.Intr, "intrafter": c.IntrAfter})
 	defer r.rec.log("done", map[string]any{})
 	var invoke func(ctx context.Context, in string, opts ...Option) error
 	npar := 0
@@ -382,7 +434,12 @@ func (r *vopRun) runCase() {
 			r.rec.log("note", map[string]any{"msg": "BUILD-FAILED: " + err.Error()})
 			return
 		}
-		run, err := ag.(*Graph[string, string]).Compile(context.Background(), WithGraphName("N_top"))
+		copts := []GraphCompileOption{WithGraphName("N_top")}
+		if c.Intr != "" {
+			copts = append(copts, WithCheckPointStore(&vopStore{m: map[string][]byte{}}))
+			copts = append(copts, r.intrOpts("top")...)
+		}
+		run, err := ag.(*Graph[string, string]).Compile(context.Background(), copts...)
 		if err != nil {
 			r.rec.log("note", map[string]any{"msg": "BUILD-FAILED: compile: " + err.Error()})
 			return
@@ -442,6 +499,32 @@ func (r *vopRun) runCase() {
 		}
 	}
 	var wg sync.WaitGroup
+	if c.Intr != "" {
+		// first call (runs up to the mark, returns the interrupt), then the resuming call with ITS options and the same checkpoint id
+		for k := range c.Calls {
+			opts := make([]Option, 0, len(c.Calls[k])+1)
+			for _, vi := range c.Calls[k] {
+				opts = append(opts, vars[vi-1])
+			}
+			opts = append(opts, WithCheckPointID("cp-"+c.ID))
+			tag := fmt.Sprintf("k%d", k+1)
+			r.mu.Lock()
+			r.cur = tag
+			r.mu.Unlock()
+			var err error
+			func() {
+				defer func() {
+					if p := recover(); p != nil {
+						err = fmt.Errorf("panic: %v", p)
+					}
+				}()
+				err = invoke(context.Background(), tag, opts...)
+			}()
+			r.emitNodes(tag)
+			r.rec.log("ret", map[string]any{"call": k + 1, "err": err != nil})
+		}
+		return
+	}
 	for k := range c.Calls {
 		opts := make([]Option, 0, len(c.Calls[k]))
 		for _, vi := range c.Calls[k] {
